@@ -39,7 +39,7 @@ evars == <<pc, cfg, ffq, ff, pend, valid, invalid, seed, cur, flag, e1, e2, buf,
 ---------------------------------------------------------------------------
 NoStream == [id |-> "none", src |-> "none"]
 NoErr    == [class |-> "none", site |-> "", msg |-> ""]
-NoObs    == [sig |-> "none", site |-> "", msg |-> "", ended |-> "running", nfw |-> "", draws |-> <<>>, msgs |-> {}]
+NoObs    == [sig |-> "none", site |-> "", msg |-> "", ended |-> "running", nfw |-> "", draws |-> <<>>, msgs |-> {}, inInv |-> FALSE, invSkip |-> FALSE]
 NoRep    == [kind |-> "none", valid |-> -1, seed |-> Zero, hasseed |-> FALSE, failfile |-> "", msg |-> ""]
 NoCur    == [kind |-> "none", stream |-> NoStream, obs |-> NoObs]
 
@@ -56,6 +56,7 @@ Expect(o) ==
   CASE o.sig = "fatal"    -> [class |-> "stop",  site |-> o.site, msg |-> o.msg]
     [] o.sig = "panic"    -> [class |-> "panic", site |-> o.site, msg |-> o.msg]
     [] o.sig = "nonfatal" -> [class |-> "stop",  site |-> "NF",   msg |-> o.msg]
+    [] o.invSkip          -> [class |-> "invalid", site |-> "", msg |-> ""]   \* a state machine's invariant skipped: that skips the test case, whatever Repeat does next
     [] o.ended = "ret"    -> NoErr
     [] OTHER              -> [class |-> "invalid", site |-> "", msg |-> ""]
 
